@@ -27,7 +27,13 @@ RULE = ('projects are random DAGs of 1..7 libraries plus 1..2 executables create
         'library code reads, -pthread, a local pkg-config package whose Libs: carry both kinds, options given on the '
         'executable itself incl. -u of a plugin the library does not forward), configured with the real bfg9000, '
         'built with GNU make and gcc, run from another cwd, build directory moved, run again; the printed sum counts '
-        'every plugin and every defsym value.')
+        'every plugin and every defsym value. The code of every node reads a global variable and calls a global '
+        'function of its own translation unit (also through a stored address), so archive members that reach a shared '
+        'library must be position-independent; the library modes (shared only, shared+static, static only) are dealt '
+        'out in turn over the generated projects and one shape project (archives reaching shared libraries plainly, '
+        'forwarded, through library() of mode-decided kind, through a dual-use library and whole-archived) is built '
+        'under each of them; in process, every object that a shared library takes in (its own and those of every '
+        'archive in its closure) must be compiled with -fPIC under all four modes.')
 TRUSTED = ('R model ld_pass (single-pass archive semantics of GNU ld) validated against the real gcc/ld on this run',
            'R model ldso_dir ($ORIGIN substitution and lexical dot-dot resolution of the dynamic loader; no symlinked '
            'directories in the build tree) validated by running the built executables before and after moving the build '
@@ -46,6 +52,8 @@ FINDING_WHOLE_PLAIN = 'whole-archive-after-plain-archive-of-same-library'
 
 DIRS = ['', 'lib', 'lib/sub', 'a/b/c', 'bin', 'x.y', 'lib2', 'a/b', 'a/z']
 KINDS = ['static', 'shared', 'dual', 'default']
+# (shared, static) library modes a project with a library() of no explicit kind can be configured with
+SYSTEM_MODES = [(True, False), (True, True), (False, True)]
 # W-tie option pools (never given to a real linker)
 STR_POOL = ['-pthread', '-g', '-Wl,-O1', '-s', '-Wl,--as-needed',
             # tokens of multi-token options
@@ -266,10 +274,12 @@ def pkg_libs_tokens(pk):
     return ['-Wl,--defsym=%s=%d' % tuple(pk['def']), '-u', pk['plug'][0]]
 
 
-def gen_project(rng, rep=None, system=False, max_libs=7):
+def gen_project(rng, rep=None, system=False, max_libs=7, mode=None):
+    """mode: the (shared, static) library mode; drawn when None"""
     nlibs = rng.randint(1, max_libs)
     nexe = rng.randint(1, 2)
-    mode = rng.choice([(True, False), (True, True), (False, True)] + ([] if system else [(False, False)]))
+    drawn = rng.choice(SYSTEM_MODES + ([] if system else [(False, False)]))
+    mode = drawn if mode is None else tuple(mode)
     nodes = []
     whole_ok = {}
     for i in range(nlibs + nexe):
@@ -441,6 +451,20 @@ def system_corpus():
         _sysnode(3, 'shared', [(0, False)], 'bin', [0], exe=True)]
     add_forced_plugin(nodes[0], 0, 2, nodes[2].lopts, nodes[2].feat, 40, False)
     res.append(Project((True, False), nodes))
+    # the configure-mode dimension: one shape under every --enable/--disable-shared/static combination that can build
+    # it.  Archives reach shared libraries in every way: listed plainly, forwarded by another archive, through a
+    # library() whose kind the mode decides, through a dual-use library, and whole-archived
+    for mode in SYSTEM_MODES:
+        res.append(Project(mode, [
+            _sysnode(0, 'static', [], 'lib', [], spec=[('u', 3)]),
+            _sysnode(1, 'default', [(0, False)], 'a/b', [0]),
+            _sysnode(2, 'shared', [(1, False), (0, False)], 'lib2', [0, 1], spec=[('x', 6)]),
+            _sysnode(3, 'static', [], 'x.y', []),
+            _sysnode(4, 'default', [(3, True)], '', [3]),
+            _sysnode(5, 'dual', [(0, False)], 'a/z', [0]),
+            _sysnode(6, 'shared', [(3, True), (5, False)], 'lib/sub', [3, 5]),
+            _sysnode(7, 'shared', [(2, False), (4, False)], 'bin', [2, 4], exe=True),
+            _sysnode(8, 'shared', [(6, False), (5, False)], '', [5, 6], exe=True, spec=[('w', 2)])]))
     return res
 
 
@@ -529,6 +553,11 @@ class Real:
             for f in (o.all if isinstance(o, file_types.DualUseLibrary) else [o]):
                 self.path_ids[f.path.suffix] = i
                 self.steps.append((i, isinstance(f, file_types.StaticLibrary), f.creator, f))
+
+    def archive(self, i):
+        """the static library file of node i (of a dual-use library its static half)"""
+        o = self.objs[i]
+        return getattr(o, 'static', o)
 
     def lib_id(self, lib):
         t = type(lib).__name__
@@ -797,6 +826,27 @@ def oracle_project(rep, proj, fixed):
                              {'project': proj.to_json(), 'node': n, 'kind': 'order', 'line': line},
                              classes=classify(proj, fixed, 'order'))
         enc = [real.enc_opt(x) for x in o]
+        if not proj.nodes[n].exe:
+            # a shared library takes in the objects of every archive on its line: they (and its own objects) must be
+            # compiled as position-independent code, under every library mode
+            from bfg9000 import file_types
+            members = [(n, out)] + [(x // 3, real.archive(x // 3)) for x in reach if x % 3 != 0]
+            nopic = []
+            for j, f in members:
+                for obj in (f.creator.files if not nopic else []):
+                    cflags = [flag_text(fl_) for fl_ in obj.creator.compiler.flags(obj.creator.options, mode='normal')] \
+                        if isinstance(obj, file_types.ObjectFile) and obj.creator else ['-fPIC']
+                    rep.count('oracle:pic-object:mode=%d,%d' % proj.mode)
+                    if not any(fl_ in ('-fPIC', '-fpic') for fl_ in cflags):
+                        bad += 1
+                        nopic.append(obj)          # one report per link step
+                        rep.fail('shared library n%d (library mode shared=%s static=%s) links the objects of %s n%d, but '
+                                 '%s is compiled without -fPIC: %r' % (n, proj.mode[0], proj.mode[1],
+                                                                      'its own node' if j == n else 'archive', j,
+                                                                      obj.path.suffix, cflags),
+                                 {'project': proj.to_json(), 'node': n, 'kind': 'pic', 'archive': j, 'flags': cflags},
+                                 classes=classify(proj, fixed, 'pic'))
+                        break
         for x in reach:
             if x % 3 == 0:
                 continue
@@ -923,7 +973,12 @@ def write_project(proj, src):
         terms = ['3 * (%s)' % (' + '.join('f%d()' % j for j in n.uses) or '0')]
         terms += ['(%s ? %s() : 0)' % (nm, nm) for nm, _ in plugs]
         terms += ['(long long)(long)q_%s' % nm for nm in defs]
-        expr = '%d + %s' % (i + 1, ' + '.join(terms))
+        # the code of a node refers to a global variable and a global function it defines itself (through the
+        # variable's address as well): in a shared object such references need position-independent code, so the
+        # objects of an archive that ends up in a shared library must have been compiled for that
+        protos += ('long long own%d_state = %d;\nlong long *own%d_ptr = &own%d_state;\n'
+                   'long long own%d(void) { return own%d_state + *own%d_ptr; }\n' % (i, i + 1, i, i, i, i, i))
+        expr = '(own%d() - own%d_state) + %s' % (i, i, ' + '.join(terms))
         with open(os.path.join(src, 'n%d.c' % i), 'w') as f:
             if n.exe:
                 f.write('#include <stdio.h>\n%sint main(void) { printf("%%lld\\n", (long long)(%s)); return 0; }\n' % (
@@ -934,7 +989,7 @@ def write_project(proj, src):
         for nm, w in plugs:
             files.append('n%d_%s.c' % (i, nm))
             with open(os.path.join(src, files[-1]), 'w') as f:
-                f.write('long long %s(void) { return %d; }\n' % (nm, w))
+                f.write('long long %s_state = %d;\nlong long %s(void) { return %s_state; }\n' % (nm, w, nm, nm))
         libs = ', '.join((('whole_archive(static_library(n%d))' if proj.eff_kind(j) == 'dual' else 'whole_archive(n%d)') % j)
                          if w else ('n%d' % j) for j, w in n.deps)
         name = posixpath.join(n.dir, 'n%d' % i)
@@ -1310,7 +1365,8 @@ def run_check(rep, thorough):
     nproj = 1000 if thorough else 60
     nsys = 110 if thorough else 8
     # the projects of the system stage also go through the tie and the in-process oracle
-    sysprojs = [gen_project(rng, None, system=True, max_libs=6) for _ in range(nsys)]
+    # the library modes are dealt out in turn, not drawn: every run builds real projects under each of them
+    sysprojs = [gen_project(rng, None, system=True, max_libs=6, mode=SYSTEM_MODES[k % 3]) for k in range(nsys)]
     projects = corpus_projects() + [gen_project(rng, rep) for _ in range(nproj)] + sysprojs
     dis = stage_w_links(rep, rng, fixed, projects)
     dis2 = stage_w_rpath(rep, rng, 600 if thorough else 120)
@@ -1329,7 +1385,8 @@ def run_check(rep, thorough):
     rep.stage('oracle:property-on-real-objects', projects=len(oprojects), failures_including_known_findings=nfail,
               violations=len(rep.violations) - v0)
     if dis or dis2 or len(rep.violations) > v0:
-        sysprojs = sysprojs + [gen_project(rng, None, system=True, max_libs=6) for _ in range(nsys)]
+        sysprojs = sysprojs + [gen_project(rng, None, system=True, max_libs=6, mode=SYSTEM_MODES[k % 3])
+                               for k in range(nsys)]
     sbad, sdis = stage_system(rep, rng, fixed, sysprojs, None if thorough else 7)
     found = len(rep.violations) - v0
     if sdis and not rep.n_with_input:
